@@ -354,6 +354,8 @@ fn check_clear_new(t: &mut Tape, ctx: &Ctx) -> Outcome {
     let cmd = cmd.as_str();
     let case = format!("{}\n--- session prefix:\n{}--- then: {} and the probe battery", texts.join("\n"), pre.script, cmd);
     crate::runner::note_case(&case);
+    // the host may still hold what get_listing() gave it (a SAVE in progress, the editor's copy)
+    let _snapshot = if t.chance(1, 2) { Some(h.rt.get_listing()) } else { None };
     h.line(cmd, &mut o);
     let out = flat(&h.take());
     if !out.is_empty() {
